@@ -20,6 +20,8 @@ THEOREMS = ['C03.check_eq_spec', 'C03.anti_symm', 'C03.owner_all', 'C03.case_ins
             'C03.fromChannel_makeChannel', 'C03.edits_preserve_wf', 'C03.initial_strong', 'C03.history_wf',
             'C03.setDefaults_keeps_antiowner', 'C03.unknown_never_owner', 'C03.touch_invisible',
             'C03.touch_invisible_check', 'C03.checkCapabilities_spec', 'C03.anti_symm_needs_valid',
+            # "the answer never depends on lookup caches": proved on the stateful model of C04
+            'C04.checkCapability_cache_free', 'C04.cache_transparent',
             # obligations on the extracted tables (decide against what /repo says now)
             'C03.rfc1459_table_ok', 'C03.chanTypes_no_dash', 'C03.chanTypes_no_o', 'C03.channel_default_ok',
             'C03.channel_default_strong', 'C03.default_caps_valid']
@@ -666,7 +668,8 @@ def load_corpus():
         return []
 
 def run(ctx):
-    build = leanbuild.ensure(PROPERTY, THEOREMS, thorough=ctx.thorough, extractors=['IrcDbCaps'])
+    build = leanbuild.ensure(PROPERTY, THEOREMS, thorough=ctx.thorough, extractors=['IrcDbCaps', 'IrcDbUsers'],
+                             extra_modules=['LimnoriaModel.C04.Props'])
     if ctx.thorough:
         cases, lines, spans, decisions = explore(ctx, 6000, 3000, 60000, exhaustive=True, corpus=load_corpus())
     else:
